@@ -71,6 +71,7 @@ class Engine:
         self.trusted_used = set()
         self.inlined = set()
         self.user_call_hooks = []
+        self.at_call_hooks = []
         self.call_stack = []
         self._loop_ids = {}
 
@@ -89,8 +90,9 @@ class Engine:
         if z3.is_false(cond):
             return [(False, st)]
         out = []
+        # the incoming state is feasible: if one arm is not, the other is
         t_ok = self.feasible(st, cond)
-        f_ok = self.feasible(st, z3.Not(cond))
+        f_ok = self.feasible(st, z3.Not(cond)) if t_ok else True
         if t_ok and f_ok:
             s2 = st.clone()
             st.assume(cond)
